@@ -190,7 +190,10 @@ func fillMapFromKeyArgs(s *slip.Scope, args slip.List, m map[string]slip.Object,
 		}
 		key := strings.ToLower(string(sym))
 		i++
-		m[key] = args[i]
+		// Of two values for the same keyword the leftmost one counts.
+		if _, has := m[key]; !has {
+			m[key] = args[i]
+		}
 	}
 }
 
